@@ -34,7 +34,7 @@ THEOREMS = ["Hyp.Query." + t for t in (
     "c05_d4_repaired", "c05_d3_witness", "c05_d5_witness", "c05_d2_witness",
     "c05_optimize_sound_partial", "c05_optimize_succeeds_partial", "c05_optimize_well_typed_partial",
     "c05_pairing_loop", "c05_pairing_loop_instances", "c05_d3_witness_and", "c05_d2_witness_not",
-    "c05_illtyped_order_witness", "c05_end_to_end_partial", "c05_d3_exact", "c05_d5_exact", "c05_d2_exact")]
+    "c05_illtyped_order_witness", "c05_end_to_end_partial", "c05_optimize_keeps_text_leaves", "c05_d3_exact", "c05_d5_exact", "c05_d2_exact")]
 CASES = {"quick": 8000, "thorough": 200000}
 BUDGET_S = {"quick": 40, "thorough": 700}
 RULE = ("catalogs of 1-4 real indexes with 0-25 documents, with and without no-value documents; trees biased to "
